@@ -33,6 +33,20 @@ CLAIMS = {
         note=TB + "Dataclass equality of action objects is trusted.",
         technique="Lean 4 theorems by list induction over a regenerated inv table + differential correspondence",
         ref="§3 C02"),
+    "C03": dict(
+        text="Model/Sched.lean: source statements (device calls, kernel invocations, parallel/auto regions, other statements, "
+             "control flow), the lowered form, the specification lowerSpec (the property as one recursive definition) and passModel "
+             "(the four rules in pass order, each a post-order walk: canonicalise, rewrite auto invokes / device calls, rewrite "
+             "regions). Theorems for region trees of any depth and width: C03_pass_eq_spec (pass = specification on well-formed "
+             "sources), C03_each_call_once_in_order (the generated paths are exactly the source calls, once each, in source order), "
+             "C03_no_schedule_left, C03_order, C03_one_play. Tie: exhaustive region trees (depth<=2/width<=2 quick; depth 3 "
+             "thorough) plus random trees (depth<=5, width<=4) with forward/reversed functions, positional/keyword/permuted-keyword "
+             "calls, gates and control flow around, compiled by the real @move(fold=False) and @move; Gen/Parallel/Auto/Play wiring, "
+             "kwargs and argument order are read off the compiled IR and compared with pass model and specification.",
+        note=TB + "kirin's Walk/Fixpoint drivers, Statement.delete/detach and global use counts are represented by the tree-level "
+                  "model (post-order application), not modelled individually; CSE/DCE after the rewrite only touch pure statements (C04).",
+        technique="Lean 4 theorems by mutual structural induction over region trees + exhaustive small-scope and random IR-level correspondence",
+        ref="§3 C03"),
     "C04": dict(
         text="Proved: (i) the purity traits, regenerated from the dialect definitions on every run, give CSE/DCE no licence to merge "
              "or drop any statement that produces a device-visible event (C04_event_stmts_impure) and the statements the pipeline "
